@@ -31,13 +31,14 @@ type Config struct {
 	Testnet  bool
 	Compress bool
 	FastSave bool
+	Purge    bool // utxo.UTXO_PURGE_UNSPENDABLE (a freshly configured client's default)
 }
 
 // WorkConfig: branches with different per-block work (longer-but-lighter vs shorter-but-heavier).
 var WorkConfig = Config{Name: "testnet-work", Testnet: true, Work: true, FastSave: true}
 
 func Configs() []Config {
-	return []Config{{Name: "plain"}, {Name: "compressed-fastsave", Compress: true, FastSave: true}, {Name: "testnet-fastsave", Testnet: true, FastSave: true}}
+	return []Config{{Name: "plain"}, {Name: "compressed-fastsave", Compress: true, FastSave: true, Purge: true}, {Name: "testnet-fastsave", Testnet: true, FastSave: true}}
 }
 
 // WorkMode: tree blocks randomly get a >20-minute gap (testnet minimum-difficulty block) or a normal gap.
@@ -70,6 +71,10 @@ func ChildFor(prop string, seed int64, tier, cfgName, stateFile string, trees in
 	defer os.RemoveAll(dir)
 	p := chainsim.DefaultParams(uint64(seed), cfg.Testnet)
 	p.BIP34, p.BIP66, p.BIP65, p.CSV, p.Segwit, p.Taproot = 104, 106, 108, 110, 112, 114
+	chainsim.SetPurge(cfg.Purge)
+	if cfg.Purge {
+		run.Inc("histories_with_purge_unspendable")
+	}
 	s := chainsim.NewSim(run, r, p, dir, chainsim.NodeOpts{CompressUTXO: cfg.Compress})
 	defer s.Close()
 	g := s.G
